@@ -275,10 +275,12 @@ class Engine:
         ob = Obligation(name, kind, qf + list(hyps), goal, getattr(node, 'lineno', None), '')
         ob.path = list(self.trace[:self.pos])
         t0 = time.time()
-        for attempt in range(2):
+        for attempt in range(3):
             s = z3.Solver()
             s.set('timeout', self.timeout_ms)
-            if attempt == 1:
+            if attempt == 0:
+                s.set('smt.mbqi', False)          # E-matching on the stated patterns only: fast when the hints suffice
+            if attempt == 2:
                 s.set('smt.random_seed', 7)
             for a in ob.assumptions:
                 s.add(a)
@@ -321,15 +323,20 @@ class Engine:
                 ob.model = None
         s.pop()
         if r == z3.unknown:
-            # fresh solver, then leave for the second back end
-            s2 = z3.Solver()
-            s2.set('timeout', self.timeout_ms)
-            for a in ob.assumptions:
-                s2.add(a)
-            s2.add(z3.Not(ob.goal))
-            r = s2.check()
-            if r == z3.sat:
-                ob.model = s2.model()
+            # fresh solver (first E-matching only, then default), then leave for the second back end
+            for mbqi in (False, True):
+                s2 = z3.Solver()
+                s2.set('timeout', self.timeout_ms)
+                if not mbqi:
+                    s2.set('smt.mbqi', False)
+                for a in ob.assumptions:
+                    s2.add(a)
+                s2.add(z3.Not(ob.goal))
+                r = s2.check()
+                if r == z3.sat:
+                    ob.model = s2.model()
+                if r != z3.unknown:
+                    break
         ob.time = time.time() - t0
         self.stats['z3_time'] += ob.time
         self.stats['checks'] += 1
